@@ -3,8 +3,8 @@ PROP = {
     "gen": [["vtool", "gen-numgo"]],
     "tool_files": ["tool_numgo.go", "tool_numgo_eval.go", "tool_numgo_exec.go"],
     "theorem_modules": ["Verif.Properties.C12"],
-    "min_theorems": 17,
-    "required_theorems": ["Verif.Properties.C12.C12_Word8_add", "Verif.Properties.C12.C12_Word64_mul", "Verif.Properties.C12.C12_Word128_sub", "Verif.Properties.C12.C12_only_divZero"],
+    "min_theorems": 31,
+    "required_theorems": ["Verif.Properties.C12.C12_Word8_add", "Verif.Properties.C12.C12_Word16_mul", "Verif.Properties.C12.C12_Word64_mul", "Verif.Properties.C12.C12_Word128_sub", "Verif.Properties.C12.C12_Word256_mul", "Verif.Properties.C12.C12_Word32_div", "Verif.Properties.C12.C12_only_divZero"],
     "streams": [
         {"name": "num", "driver": "drv_num",
          "quick": {"n": 400}, "thorough": {"n": 20000, "seeds": 4}},
